@@ -103,6 +103,8 @@ prop("C06", "exploration",
      [
          {"test": "TestC06_Scanner", "quick": {"checks": 150000, "timeout": 300},
           "thorough": {"checks": 2000000, "shards": 16, "timeout": 2400}},
+         {"test": "TestC06_ScanWire", "quick": {"checks": 4000, "timeout": 300},
+          "thorough": {"checks": 40000, "shards": 16, "timeout": 2400}},
      ],
      ["row keys and region boundaries contain no run of eight 0xff (documented approximation)",
       "reversed scans have an explicit start row"])
@@ -118,6 +120,8 @@ prop("C14", "fault_enumeration",
      [
          {"test": "TestC14_Scanner", "quick": {"checks": 100000, "timeout": 300},
           "thorough": {"checks": 1500000, "shards": 16, "timeout": 2400}},
+         {"test": "TestC14_ScanWire", "quick": {"checks": 4000, "timeout": 300},
+          "thorough": {"checks": 40000, "shards": 16, "timeout": 2400}},
      ],
      ["injected RPC errors are non-retryable and hit only non-close requests (server state stays knowable)"])
 
@@ -186,6 +190,8 @@ prop("C13", "fault_enumeration",
      [
          {"test": "TestC13_Cancellation", "quick": {"checks": 6000, "timeout": 300},
           "thorough": {"checks": 60000, "shards": 16, "timeout": 2400}},
+         {"test": "TestC13_ScanOpenScanner", "quick": {"checks": 2000, "timeout": 300},
+          "thorough": {"checks": 20000, "shards": 8, "timeout": 2400}},
      ],
      ["'short bounded delay' is read as 100 ms of virtual time after the context ended",
       "for a batch the statement only requires the call to be marked failed, not a particular error"])
